@@ -8,7 +8,8 @@ import json, os, subprocess, sys
 from pathlib import Path
 
 SEEDED = Path("/verif/seeded")
-EXTRA = {"C06_seed_1": ["C08"], "C06_w2_seed_2": ["C16"], "C12_w2_seed_3": ["C02"], "C01_w3_seed_1": ["C03"], "C03_w3_seed_1": ["C02"], "C05_w3_seed_3": ["C08"], "C06_w3_seed_3": ["C07"], "C11_w3_seed_3": ["C15"], "C13_w3_seed_2": ["C19", "C08"], "C13_w3_seed_3": ["C08"], "C14_w3_seed_3": ["C06"], "C17_w3_seed_2": ["C08"]}
+sys.path.insert(0, "/verif/tools")
+from seed_regress_map import EXTRA  # noqa: E402
 tier = os.environ.get("TIER", "quick")
 names = [d.name for d in sorted(SEEDED.iterdir()) if d.is_dir() and (not sys.argv[1:] or any(d.name.startswith(p) for p in sys.argv[1:]))]
 assert subprocess.run("git -C /repo status --porcelain", shell=True, capture_output=True, text=True).stdout.strip() == "", "/repo is not clean"
